@@ -1421,6 +1421,18 @@ func Run(r *common.Run) error {
 
 	// ---- several sessions binding on one feature value ----
 	genConcBind(r)
+	for _, k := range []int{2, 3, 5} {
+		for _, mode := range []string{"seq", "par"} {
+			for _, remote := range []string{"user@example.net", "user@example.net/old"} {
+				if r.Race() && mode == "seq" {
+					continue
+				}
+				for rep := 0; rep < r.Pick(2, 10); rep++ {
+					runBindFresh(r, mode, k, remote, "bind-fresh-"+mode)
+				}
+			}
+		}
+	}
 	if r.Race() {
 		return nil
 	}
@@ -1642,6 +1654,11 @@ func replayLine(r *common.Run, l string) error {
 		} else {
 			runHdr(r, hdrCase{recv: true, ws: ws, s2s: s2s, loc: from, orig: to, lang: lang}, "replay")
 		}
+		return nil
+	case f[0] == "bindr" && len(f) == 4:
+		k := 0
+		fmt.Sscanf(f[2], "%d", &k)
+		runBindFresh(r, f[1], k, un(f[3]), "replay")
 		return nil
 	case f[0] == "concb" && len(f) >= 3:
 		return replayConcBind(r, f)
